@@ -487,42 +487,188 @@ theorem hrr_cookie_only (i : HrrIn) (o : HrrOut) (h : processHrrShares i = .ok o
 
 /-! ## accept / reject -/
 
-private theorem findSome_ours (C : Crypto) (hC : C.Laws) (keys : List SKey) (kid : Nat) (aad pt : Bytes)
-    (h : ∃ k ∈ keys, k.kid = kid) :
-    keys.findSome? (fun k => C.hopen k.kid aad (C.hseal kid aad pt)) = some pt := by
+private theorem findSome_ours (C : Crypto) (hC : C.Laws) (keys : List SKey) (c : Nat) (aad pt : Bytes)
+    (h : ∃ k ∈ keys, k.ctxOf C = c) :
+    keys.findSome? (fun k => C.hopen (k.ctxOf C) aad (C.hseal c aad pt)) = some pt := by
   induction keys with
   | nil => obtain ⟨k, hk, _⟩ := h; cases hk
   | cons k ks ih =>
-    by_cases hk : k.kid = kid
+    by_cases hk : k.ctxOf C = c
     · simp [hk, hC.hopen_hseal]
-    · have hne : kid ≠ k.kid := fun e => hk e.symm
-      have hrest : ∃ k' ∈ ks, k'.kid = kid := by
+    · have hne : c ≠ k.ctxOf C := fun e => hk e.symm
+      have hrest : ∃ k' ∈ ks, k'.ctxOf C = c := by
         obtain ⟨k', hk', he⟩ := h
         rcases List.mem_cons.1 hk' with rfl | hm
         · exact absurd he hk
         · exact ⟨k', hm, he⟩
-      simp [hC.hopen_other kid k.kid aad pt hne, ih hrest]
+      simp [hC.hopen_other c (k.ctxOf C) aad pt hne, ih hrest]
 
-private theorem findSome_none (C : Crypto) (hC : C.Laws) (keys : List SKey) (kid : Nat) (aad pt : Bytes)
-    (h : ∀ k ∈ keys, k.kid ≠ kid) :
-    keys.findSome? (fun k => C.hopen k.kid aad (C.hseal kid aad pt)) = none := by
+private theorem findSome_none (C : Crypto) (hC : C.Laws) (keys : List SKey) (c : Nat) (aad pt : Bytes)
+    (h : ∀ k ∈ keys, k.ctxOf C ≠ c) :
+    keys.findSome? (fun k => C.hopen (k.ctxOf C) aad (C.hseal c aad pt)) = none := by
   induction keys with
   | nil => rfl
   | cons k ks ih =>
-    have hne : kid ≠ k.kid := fun e => h k (by simp) e.symm
-    simp [hC.hopen_other kid k.kid aad pt hne, ih (fun x hx => h x (by simp [hx]))]
+    have hne : c ≠ k.ctxOf C := fun e => h k (by simp) e.symm
+    simp [hC.hopen_other c (k.ctxOf C) aad pt hne, ih (fun x hx => h x (by simp [hx]))]
 
-/-- **accept.** A server that holds the HPKE key of the client's config opens the payload,
+/-! ## the ECHConfigList: every entry's `raw` is exactly its own bytes -/
+
+/-- one list entry on the wire: version, uint16 length, contents. -/
+def encEntry (e : Nat × Bytes) : Bytes := u16 e.1 ++ vec16 e.2
+
+def EntryWF (e : Nat × Bytes) : Prop := e.1 < 65536 ∧ e.2.length < 65536
+
+instance (e : Nat × Bytes) : Decidable (EntryWF e) := by unfold EntryWF; infer_instance
+
+private theorem parseConfig_entry (e : Nat × Bytes) (rest : Bytes) (h : EntryWF e) :
+    parseConfig (encEntry e ++ rest) =
+      if e.1 ≠ extECH then .skip else
+      match parseConfigFields (e.2 ++ rest) with
+      | none => .malformed
+      | some c => .cfg { c with raw := encEntry e } := by
+  unfold parseConfig encEntry vec16
+  simp only [List.append_assoc]
+  rw [readU16_u16, Nat.mod_eq_of_lt h.1]
+  simp only
+  rw [readU16_u16, Nat.mod_eq_of_lt h.2]
+  simp only
+  have hlen : ¬ (u16 e.1 ++ (u16 e.2.length ++ (e.2 ++ rest))).length < e.2.length + 4 := by
+    simp only [List.length_append, u16_length]; omega
+  rw [if_neg hlen]
+  have htake : (u16 e.1 ++ (u16 e.2.length ++ (e.2 ++ rest))).take (e.2.length + 4)
+      = u16 e.1 ++ (u16 e.2.length ++ e.2) := by
+    have : u16 e.1 ++ (u16 e.2.length ++ (e.2 ++ rest)) = (u16 e.1 ++ (u16 e.2.length ++ e.2)) ++ rest := by
+      simp [List.append_assoc]
+    rw [this]
+    apply List.take_left'
+    simp only [List.length_append, u16_length]; omega
+  rw [htake]
+  by_cases hv : e.1 = extECH
+  · simp only [hv, ne_eq, not_true_eq_false, if_false]
+    cases parseConfigFields (e.2 ++ rest) <;> rfl
+  · simp [hv]
+
+private theorem entryLen_entry (e : Nat × Bytes) (rest : Bytes) (h : EntryWF e) :
+    entryLen (encEntry e ++ rest) = e.2.length := by
+  simp only [encEntry, vec16, u16, List.cons_append, List.nil_append, entryLen, b_toNat]
+  have := h.2
+  omega
+
+private theorem drop_entry (e : Nat × Bytes) (rest : Bytes) (h : EntryWF e) :
+    (encEntry e ++ rest).drop (entryLen (encEntry e ++ rest) + 4) = rest := by
+  rw [entryLen_entry e rest h]
+  apply List.drop_left'
+  simp only [encEntry, vec16, List.length_append, u16_length]; omega
+
+private theorem encEntry_isEmpty (e : Nat × Bytes) (rest : Bytes) :
+    (encEntry e ++ rest).isEmpty = false ∧ ¬ (encEntry e ++ rest).length < 4 := by
+  constructor
+  · simp [encEntry, u16]
+  · simp only [encEntry, vec16, List.length_append, u16_length]; omega
+
+private theorem length_le_flatMap (entries : List (Nat × Bytes)) :
+    entries.length ≤ (entries.flatMap encEntry).length := by
+  induction entries with
+  | nil => simp
+  | cons e es ih =>
+    simp only [List.flatMap_cons, List.length_append, List.length_cons, encEntry, vec16, u16_length]
+    omega
+
+private theorem parseListAux_raw : ∀ (entries : List (Nat × Bytes)) (fuel : Nat) (cfgs : List EchConfig),
+    (∀ e ∈ entries, EntryWF e) → entries.length ≤ fuel →
+    parseListAux fuel (entries.flatMap encEntry) = some cfgs →
+    cfgs.map (·.raw) = (entries.filter (fun e => e.1 == extECH)).map encEntry := by
+  intro entries
+  induction entries with
+  | nil =>
+    intro fuel cfgs _ _ h
+    cases fuel <;> simp [parseListAux] at h <;> subst h <;> rfl
+  | cons e es ih =>
+    intro fuel cfgs hwf hlen h
+    cases fuel with
+    | zero => simp at hlen
+    | succ f =>
+      have he : EntryWF e := hwf e (by simp)
+      have hes : ∀ x ∈ es, EntryWF x := fun x hx => hwf x (by simp [hx])
+      have hf : es.length ≤ f := by simpa using hlen
+      simp only [List.flatMap_cons, parseListAux, (encEntry_isEmpty e _).1, Bool.false_eq_true, if_false,
+        if_neg (encEntry_isEmpty e _).2, parseConfig_entry e _ he, drop_entry e _ he] at h
+      by_cases hv : e.1 = extECH
+      · simp only [hv, ne_eq, not_true_eq_false, if_false] at h
+        cases hp : parseConfigFields (e.2 ++ es.flatMap encEntry) with
+        | none => simp [hp] at h
+        | some c =>
+          simp only [hp] at h
+          cases hr : parseListAux f (es.flatMap encEntry) with
+          | none => simp [hr] at h
+          | some rest =>
+            simp only [hr, Option.map_some, Option.some.injEq] at h
+            subst h
+            have := ih f rest hes hf hr
+            simp [hv, this]
+      · simp only [ne_eq, hv, not_false_eq_true, if_true] at h
+        have := ih f cfgs hes hf h
+        simp [hv, this]
+
+/-- **`config_raw_exact`.** For every ECHConfigList (any number of entries, any versions, any
+contents): if the list parses, the `raw` of the k-th parsed config is exactly the k-th
+encrypted_client_hello-versioned length-delimited entry of the list — its own bytes, nothing of the
+entries that follow it. (The HPKE `info`, `hpkeInfo`, is built from `raw`.) -/
+theorem config_raw_exact (entries : List (Nat × Bytes)) (cfgs : List EchConfig)
+    (hwf : ∀ e ∈ entries, EntryWF e)
+    (h : parseConfigList (vec16 (entries.flatMap encEntry)) = some cfgs) :
+    cfgs.map (·.raw) = (entries.filter (fun e => e.1 == extECH)).map encEntry := by
+  unfold parseConfigList vec16 at h
+  rw [readU16_u16] at h
+  simp only at h
+  split at h
+  · cases h
+  · exact parseListAux_raw entries _ cfgs hwf (length_le_flatMap entries) h
+
+/-- the client's HPKE `info` for the config it picked is `"tls ech\0"` followed by that entry's own
+bytes — the bytes a server operator configures as `EncryptedClientHelloKey.Config` for it. -/
+theorem picked_info_own_bytes (entries : List (Nat × Bytes)) (cfgs : List EchConfig) (c : EchConfig)
+    (hwf : ∀ e ∈ entries, EntryWF e)
+    (h : parseConfigList (vec16 (entries.flatMap encEntry)) = some cfgs) (hp : pickConfig cfgs = some c) :
+    ∃ e ∈ entries, e.1 = extECH ∧ hpkeInfo c = hpkeInfoOfBytes (encEntry e) := by
+  have hraw := config_raw_exact entries cfgs hwf h
+  have hc : c ∈ cfgs := List.mem_of_find?_eq_some hp
+  have : c.raw ∈ cfgs.map (·.raw) := List.mem_map.2 ⟨c, hc, rfl⟩
+  rw [hraw] at this
+  obtain ⟨e, he, hee⟩ := List.mem_map.1 this
+  have hf := List.mem_filter.1 he
+  exact ⟨e, hf.1, by simpa using hf.2, by simp [hpkeInfo, hpkeInfoOfBytes, hee]⟩
+
+/-- why exactness matters: a server key whose configured bytes differ from the `raw` the client used
+(or whose key differs) never opens the payload — the server rejects although it "has the key". -/
+theorem other_info_rejected (C : Crypto) (hC : C.Laws) (keys : List SKey) (picked : EchConfig)
+    (outer : Hello) (aad pt : Bytes)
+    (h : ∀ k ∈ keys, k.pk ≠ picked.publicKey ∨ k.config ≠ picked.raw) :
+    tryKeys C keys outer aad (C.hseal (clientCtx C picked) aad pt) = .rejected (retryList keys) := by
+  unfold tryKeys
+  rw [findSome_none C hC keys _ aad pt]
+  intro k hk heq
+  have := hC.ctx_inj _ _ _ _ heq
+  rcases h k hk with h1 | h2
+  · exact h1 this.1
+  · apply h2
+    have h3 := this.2
+    simp only [hpkeInfoOfBytes, hpkeInfo] at h3
+    exact List.append_cancel_left h3
+
+/-- **accept.** A server that holds the HPKE key of the config the client picked, configured with
+that config's own bytes (so that both sides derive the same HPKE `info`), opens the payload,
 reconstructs an inner hello (`inner'`, by the round-trip theorems), and signals acceptance over its
 inner transcript. The client — which hashed its own marshalling of the inner hello on the crypto/tls
 path (`hgo`: there the reconstruction *is* the inner hello) and the reconstruction on the uTLS path —
 recognises the confirmation: it reports `ECHAccepted` and `Config.ServerName`, and the name the
 server saw in the inner hello is the client's. -/
 theorem accept_reports {Chain : Type} (C : Crypto) (hC : C.Laws) (O : VerifyPlan.Oracle Chain)
-    (cfg : VerifyPlan.Cfg) (keys : List SKey) (kid : Nat) (inner outer inner' : Hello)
+    (cfg : VerifyPlan.Cfg) (keys : List SKey) (picked : EchConfig) (inner outer inner' : Hello)
     (mnl : Nat) (ot : Option (List Nat)) (utls : Bool) (aad snB : Bytes) (pub : String) (chain : Chain)
     (sh : SHello) (hrr : Option (Bytes × Bytes))
-    (hkey : ∃ k ∈ keys, k.kid = kid)
+    (hkey : ∃ k ∈ keys, k.pk = picked.publicKey ∧ k.config = picked.raw)
     (hdec : decodeInner outer (encodeInner inner mnl ot) = .ok inner')
     (hvr : inner'.vr = inner.vr) (hsn : inner'.serverName = inner.serverName)
     (hgo : utls = false → inner' = inner)
@@ -530,7 +676,7 @@ theorem accept_reports {Chain : Type} (C : Crypto) (hC : C.Laws) (O : VerifyPlan
     (hsig : ∀ m, clientInnerMsg utls inner outer mnl ot = some m →
       sh.signal = serverSignal C (inner'.vr.drop 2) (innerTranscript C inner'.marshal hrr) sh.zeroed)
     (hnoext : sh.hasEchExt = false) :
-    tryKeys C keys outer aad (C.hseal kid aad (encodeInner inner mnl ot)) = .accepted inner' ∧
+    tryKeys C keys outer aad (C.hseal (clientCtx C picked) aad (encodeInner inner mnl ot)) = .accepted inner' ∧
     clientInnerMsg utls inner outer mnl ot = some inner'.marshal ∧
     clientFinish C O cfg snB pub (inner.vr.drop 2) (innerTranscript C inner'.marshal hrr) sh none chain
       = .accepted snB true ∧
@@ -542,7 +688,10 @@ theorem accept_reports {Chain : Type} (C : Crypto) (hC : C.Laws) (O : VerifyPlan
     | false => simp [hgo rfl]
   refine ⟨?_, hmsg, ?_, hsn⟩
   · unfold tryKeys
-    rw [findSome_ours C hC keys kid aad _ hkey]
+    have hkey' : ∃ k ∈ keys, k.ctxOf C = clientCtx C picked := by
+      obtain ⟨k, hk, h1, h2⟩ := hkey
+      exact ⟨k, hk, by simp [SKey.ctxOf, clientCtx, hpkeInfo, hpkeInfoOfBytes, h1, h2]⟩
+    rw [findSome_ours C hC keys _ aad _ hkey']
     simp [hdec]
   · unfold clientFinish clientConfirms
     rw [hsig _ hmsg, hvr]
@@ -554,17 +703,17 @@ own random does not happen to equal the confirmation value), verifies the certif
 public name and returns `ECHRejectionError` carrying exactly that retry list (empty when the server
 has none to offer) — never "accepted". -/
 theorem reject_gives_retry {Chain : Type} (C : Crypto) (hC : C.Laws) (O : VerifyPlan.Oracle Chain)
-    (cfg : VerifyPlan.Cfg) (keys : List SKey) (kid : Nat) (outer : Hello) (aad pt snB tr innerRandom : Bytes)
+    (cfg : VerifyPlan.Cfg) (keys : List SKey) (c : Nat) (outer : Hello) (aad pt snB tr innerRandom : Bytes)
     (pub : String) (chain : Chain) (sh : SHello)
-    (hnokey : ∀ k ∈ keys, k.kid ≠ kid)
+    (hnokey : ∀ k ∈ keys, k.ctxOf C ≠ c)
     (hnoconf : sh.signal ≠ C.conf 0 innerRandom (tr ++ sh.zeroed))
     (hcert : VerifyPlan.verifyCert O cfg false pub chain = none) :
-    tryKeys C keys outer aad (C.hseal kid aad pt) = .rejected (retryList keys) ∧
+    tryKeys C keys outer aad (C.hseal c aad pt) = .rejected (retryList keys) ∧
     clientFinish C O cfg snB pub innerRandom tr sh (retryList keys) chain
       = .echRejection ((retryList keys).getD []) := by
   constructor
   · unfold tryKeys
-    rw [findSome_none C hC keys kid aad pt hnokey]
+    rw [findSome_none C hC keys c aad pt hnokey]
   · unfold clientFinish clientConfirms
     have : (C.conf 0 innerRandom (tr ++ sh.zeroed) == sh.signal) = false := by
       apply Bool.eq_false_iff.2
@@ -630,11 +779,104 @@ example : decodeInner outerGo (encodeInnerCore innerGo none ++ [0, 0, 1]) = .err
 example : (processHrrShares ⟨true, true, [⟨2570, [0]⟩, ⟨29, [1]⟩], [⟨2570, [0]⟩, ⟨29, [1]⟩], [29, 23, 24], 24, false, [9, 9]⟩).toOption.map
     (fun o => (o.innerShares, o.wireShares)) = some ([⟨24, [9, 9]⟩], [⟨24, [9, 9]⟩]) := by decide
 -- retry_list_content / reject_gives_retry: one retry config out of two keys
-example : retryList [⟨2, [1, 2, 3], true⟩, ⟨3, [4], false⟩] = some [0, 3, 1, 2, 3] := by decide
+example : retryList [⟨[2], [1, 2, 3], true⟩, ⟨[3], [4], false⟩] = some [0, 3, 1, 2, 3] := by decide
+-- config_raw_exact / picked_info_own_bytes: a rotation list [unknown version, picked, next key]
+private def cEx : Bytes := [7, 0, 32, 0, 1, 1, 0, 4, 0, 1, 0, 1, 16, 3, 112, 46, 113, 0, 0]
+private def cEx2 : Bytes := [8, 0, 32, 0, 1, 2, 0, 4, 0, 1, 0, 3, 16, 3, 112, 46, 113, 0, 0]
+private def listEx : List (Nat × Bytes) := [(0xfe0a, [1, 2]), (extECH, cEx), (extECH, cEx2)]
+example : ∀ e ∈ listEx, EntryWF e := by decide
+set_option maxRecDepth 100000 in
+example : (parseConfigList (vec16 (listEx.flatMap encEntry))).map (·.map (·.raw))
+    = some [encEntry (extECH, cEx), encEntry (extECH, cEx2)] := by decide +kernel
+set_option maxRecDepth 100000 in
+example : ((parseConfigList (vec16 (listEx.flatMap encEntry))).bind pickConfig).map
+    (fun c => (c.configId, c.publicKey, hpkeInfo c)) = some (7, [1], infoPrefix ++ encEntry (extECH, cEx)) := by
+  decide +kernel
+-- a list whose only usable entry comes after an entry without a supported suite and one with a mandatory extension
+set_option maxRecDepth 100000 in
+example : ((parseConfigList (vec16 ([(extECH, [9, 0, 32, 0, 1, 1, 0, 4, 0, 2, 0, 1, 16, 3, 112, 46, 113, 0, 0]),
+      (extECH, [6, 0, 32, 0, 1, 1, 0, 4, 0, 1, 0, 1, 16, 3, 112, 46, 113, 0, 4, 128, 1, 0, 0]),
+      (extECH, cEx)].flatMap encEntry))).bind pickConfig).map (·.configId) = some 7 := by decide +kernel
+
 -- the laws of the symbolic primitives are satisfiable: a unary-tagged "HPKE" and injective "KDF"s
+private def natOfD : List Nat → Nat
+  | [] => 0
+  | d :: ds => (d + 1) + 258 * natOfD ds
+
+private def digitsOf (pk info : Bytes) : List Nat := pk.map (·.toNat) ++ 256 :: info.map (·.toNat)
+
+private theorem natOfD_inj : ∀ (a c : List Nat), (∀ d ∈ a, d ≤ 256) → (∀ d ∈ c, d ≤ 256) →
+    natOfD a = natOfD c → a = c := by
+  intro a
+  induction a with
+  | nil => intro c _ _ h; cases c with
+    | nil => rfl
+    | cons d ds => simp only [natOfD] at h; omega
+  | cons x xs ih =>
+    intro c ha hc h
+    cases c with
+    | nil => simp only [natOfD] at h; omega
+    | cons d ds =>
+      have hx : x ≤ 256 := ha x (by simp)
+      have hd : d ≤ 256 := hc d (by simp)
+      simp only [natOfD] at h
+      have h1 : x = d := by omega
+      have h2 : natOfD xs = natOfD ds := by omega
+      rw [h1, ih ds (fun y hy => ha y (by simp [hy])) (fun y hy => hc y (by simp [hy])) h2]
+
+private theorem map_toNat_inj : ∀ (a c : Bytes), a.map (·.toNat) = c.map (·.toNat) → a = c := by
+  intro a
+  induction a with
+  | nil => intro c h; cases c with
+    | nil => rfl
+    | cons _ _ => simp at h
+  | cons x xs ih =>
+    intro c h
+    cases c with
+    | nil => simp at h
+    | cons y ys =>
+      simp only [List.map_cons, List.cons.injEq] at h
+      rw [UInt8.toNat_inj.1 h.1, ih ys h.2]
+
+private theorem digitsOf_inj : ∀ (pk pk' info info' : Bytes), digitsOf pk info = digitsOf pk' info' →
+    pk = pk' ∧ info = info' := by
+  intro pk
+  induction pk with
+  | nil =>
+    intro pk' info info' h
+    cases pk' with
+    | nil =>
+      simp only [digitsOf, List.map_nil, List.nil_append, List.cons.injEq, true_and] at h
+      exact ⟨rfl, map_toNat_inj _ _ h⟩
+    | cons y ys =>
+      simp only [digitsOf, List.map_nil, List.nil_append, List.map_cons, List.cons_append, List.cons.injEq] at h
+      have := UInt8.toNat_lt y
+      omega
+  | cons x xs ih =>
+    intro pk' info info' h
+    cases pk' with
+    | nil =>
+      simp only [digitsOf, List.map_nil, List.nil_append, List.map_cons, List.cons_append, List.cons.injEq] at h
+      have := UInt8.toNat_lt x
+      omega
+    | cons y ys =>
+      simp only [digitsOf, List.map_cons, List.cons_append, List.cons.injEq] at h
+      have := ih ys info info' h.2
+      rw [UInt8.toNat_inj.1 h.1, this.1, this.2]
+      exact ⟨rfl, rfl⟩
+
+private theorem digitsOf_le (pk info : Bytes) : ∀ d ∈ digitsOf pk info, d ≤ 256 := by
+  intro d hd
+  simp only [digitsOf, List.mem_append, List.mem_cons, List.mem_map] at hd
+  rcases hd with ⟨x, _, rfl⟩ | rfl | ⟨x, _, rfl⟩
+  · have := UInt8.toNat_lt x; omega
+  · omega
+  · have := UInt8.toNat_lt x; omega
+
 private def toyC : Crypto where
   conf := fun l r tr => [b l] ++ vec16 r ++ tr
   mhash := fun m => m
+  ctx := fun pk info => natOfD (digitsOf pk info)
   hseal := fun k _ pt => List.replicate k (1 : UInt8) ++ (0 :: pt)
   hopen := fun k _ ct =>
     if ct.take k = List.replicate k (1 : UInt8) ∧ (ct.drop k).head? = some 0 then some (ct.drop (k + 1)) else none
@@ -670,8 +912,12 @@ private theorem toyLaws : toyC.Laws := by
       have : k - k' = (k - k' - 1) + 1 := by omega
       rw [this, List.replicate_succ] at h2
       simp at h2
+  · intro pk info pk' info' h
+    exact digitsOf_inj pk pk' info info'
+      (natOfD_inj _ _ (digitsOf_le pk info) (digitsOf_le pk' info') h)
 
 private def toyO : VerifyPlan.Oracle Unit := fun _ _ => true
+private def pickedEx : EchConfig := ⟨[5, 6], 7, 0x20, [1], [(1, 1)], 16, pubEx, []⟩
 private def cfgEx : VerifyPlan.Cfg := ⟨"a.b", "", false, false, true⟩
 private def shEx : SHello :=
   ⟨[9], serverSignal toyC (innerGo.vr.drop 2) (innerTranscript toyC innerGo.marshal none) [9], false, 0, [9, 9]⟩
@@ -680,16 +926,21 @@ private def shEx : SHello :=
 set_option maxRecDepth 100000 in
 example : clientFinish toyC toyO cfgEx nameEx "p.q" (innerGo.vr.drop 2)
     (innerTranscript toyC innerGo.marshal none) shEx none () = .accepted nameEx true :=
-  (accept_reports toyC toyLaws toyO cfgEx [⟨2, [], true⟩, ⟨1, [], true⟩] 1 innerGo outerGo innerGo 16 none
-    false [] nameEx "p.q" () shEx none ⟨⟨1, [], true⟩, by simp, rfl⟩ (by decide +kernel) rfl rfl (fun _ => rfl)
+  (accept_reports toyC toyLaws toyO cfgEx [⟨[2], [9], true⟩, ⟨[1], [5, 6], true⟩] pickedEx innerGo outerGo innerGo 16 none
+    false [] nameEx "p.q" () shEx none ⟨⟨[1], [5, 6], true⟩, by simp, rfl, rfl⟩ (by decide +kernel) rfl rfl (fun _ => rfl)
     (by decide) (fun _ _ => rfl) rfl).2.2.1
 
 -- reject_gives_retry: the server only has key 2, marked SendAsRetry
 example : clientFinish toyC toyO cfgEx nameEx "p.q" [7] [8] ⟨[], [0], false, 0, []⟩
-      (retryList [⟨2, [1, 2, 3], true⟩]) ()
-    = .echRejection ((retryList [⟨2, [1, 2, 3], true⟩]).getD []) :=
-  (reject_gives_retry toyC toyLaws toyO cfgEx [⟨2, [1, 2, 3], true⟩] 1 outerGo [] [5] nameEx [8] [7] "p.q" ()
-    ⟨[], [0], false, 0, []⟩ (by decide) (by decide) (by decide)).2
+      (retryList [⟨[2], [1, 2, 3], true⟩]) ()
+    = .echRejection ((retryList [⟨[2], [1, 2, 3], true⟩]).getD []) :=
+  (reject_gives_retry toyC toyLaws toyO cfgEx [⟨[2], [1, 2, 3], true⟩] (clientCtx toyC pickedEx) outerGo [] [5] nameEx [8] [7] "p.q" ()
+    ⟨[], [0], false, 0, []⟩
+    (by intro k hk h
+        simp only [List.mem_singleton] at hk; subst hk
+        have := toyLaws.ctx_inj _ _ _ _ h
+        exact absurd this.1 (by decide))
+    (by decide) (by decide)).2
 
 -- outer_hides_name / outer_sni_public: the outer hello of the example names p.q
 example : (⟨[], [], [], [], (outerExtsT ⟨5, 1, 1, 16, pubEx, []⟩ [] []).map TExt.erase⟩ : Hello).serverName
